@@ -181,6 +181,57 @@ def numberPlans (plans : List PatchPlan) : Except NErr (Array (NdArr ℤ) × ℕ
   let arrays ← readAll plans g.1.toArray
   pure (arrays, g.2)
 
+/-! ## positions, and the decidable guard `starOK` of the numbering theorem -/
+
+instance : Inhabited PatchPlan := ⟨⟨[], []⟩⟩
+
+/-- number / attached point at the flat C-order position `q` of the patch at position `k` -/
+def numAt (N : Array (NdArr ℤ)) (k q : ℕ) : ℤ := (N.getD k default).data.getD q default
+def ptAt {γ : Type} [Inhabited γ] (P : List (NdArr γ)) (k q : ℕ) : γ :=
+  (P.toArray.getD k default).data.getD q default
+
+/-- `q` is a position of the patch at `k` -/
+def ValidPos (plans : List PatchPlan) (k q : ℕ) : Prop := ∃ p, plans[k]? = some p ∧ q < shapeSize p.shape
+
+/-- the two lists of arrays describe patches of the same shapes -/
+def compatB {γ : Type} : List (NdArr ℤ) → List (NdArr γ) → Bool
+  | [], [] => true
+  | n :: ns, p :: ps => (n.shape == p.shape && n.data.size == p.data.size) && compatB ns ps
+  | _, _ => false
+
+/-- every face that is read views the array of an EARLIER top node -/
+def wellOrderedB (plans : List PatchPlan) : Bool :=
+  plans.zipIdx.all fun (pk : PatchPlan × ℕ) => pk.1.faces.all fun f =>
+    f.owned || match f.src with
+      | some v => decide (v.top < pk.2)
+      | none => true
+
+/-- the position `q` of the patch lies on a codimension-1 section the patch does not own -/
+def flaggedB (p : PatchPlan) (q : ℕ) : Bool := (flagArray p).data.getD q 0 == -1
+
+/-- **star condition**: a point of the patch at `k` that occurs in an earlier patch is flagged
+    (lies on a face shared with an earlier patch) -/
+def starB {γ : Type} [Inhabited γ] [BEq γ] (plans : List PatchPlan) (P : List (NdArr γ)) : Bool :=
+  (List.range plans.length).all fun k =>
+    let p := plans.getD k default
+    (List.range (shapeSize p.shape)).all fun q =>
+      flaggedB p q || (List.range k).all fun k' =>
+        (List.range (shapeSize (plans.getD k' default).shape)).all fun q' => ptAt P k q != ptAt P k' q'
+
+/-- no patch contains a point twice -/
+def injB {γ : Type} [Inhabited γ] [BEq γ] (plans : List PatchPlan) (P : List (NdArr γ)) : Bool :=
+  (List.range plans.length).all fun k =>
+    let n := shapeSize (plans.getD k default).shape
+    (List.range n).all fun q => (List.range q).all fun q' => ptAt P k q != ptAt P k q'
+
+/-- **`starOK`** — the decidable hypothesis of the numbering theorem (`C18_numbering_star`):
+    the attached points have the shapes of the number arrays, are transported onto themselves by the
+    face links, contain no junk, ownership is first-come, the star condition holds and no patch
+    contains a point twice.  Evaluated by the harness on every generated complex. -/
+def starOK {γ : Type} [Inhabited γ] [DecidableEq γ] (plans : List PatchPlan) (P : List (NdArr γ)) : Bool :=
+  compatB (generateAll plans 0).1 P && decide (readAllG plans P.toArray = .ok P.toArray) &&
+  (P.all fun a => a.data.all (· != default)) && wellOrderedB plans && starB plans P && injB plans P
+
 /-! ## extraction of the plans from the catalogue -/
 
 /-- `catalogue.top_nodes()` -/
@@ -298,6 +349,19 @@ def geomPoint (o : Obj) (p : List ℚ) : List ℚ :=
 
 /-- the geometric points of the control net, flat C order -/
 def ptsOf (o : Obj) : List (List ℚ) := o.cps.data.toList.map (geomPoint o)
+
+/-- arrays of the shapes of the plans filled with `true` -/
+def trueArrays (plans : List PatchPlan) : List (NdArr Bool) := plans.map fun p => NdArr.full p.shape true
+
+/-- **no junk is ever read**: transporting the all-`true` arrays through the face links gives the
+    all-`true` arrays (an index outside an array would read the default `false`).  Decidable guard of
+    `C18_numbering_partition`, evaluated by the harness on every generated complex. -/
+def noJunkB (plans : List PatchPlan) : Bool :=
+  decide (readAllG plans (trueArrays plans).toArray = .ok (trueArrays plans).toArray)
+
+/-- the geometric points of the control nets, as arrays -/
+def geomArrays (objs : List Obj) : List (NdArr (List ℚ)) :=
+  objs.map fun o => ⟨o.cps.shape, o.cps.data.map (geomPoint o)⟩
 
 /-- the coincidence of the control points `a[ia]` and `b[ib]` is explained by a common entity of
     lower dimension: sections `sa ∋ ia`, `sb ∋ ib` of the same dimension that `Orientation.compute`
